@@ -100,7 +100,7 @@ static void judge(Ctx& ctx, const std::string& s, const Rec& r) {
   for (int k = 0; k < 2; ++k) if (r.oc[C_LL1 + k] == 1 && (r.lat[k] != SENT || r.lon[k] != SENT)) ctx.fail(key + "/ll" + fmti(k), "DecodeLatLon threw but modified lat/lon (documented: unchanged)", F("touched", C_LL1 + k));
   // ---- Decode family against the grammar
   dmsg::Result g = dmsg::recognise(s);
-  h = h * 3 + g.verdict;
+  h = (h * 3 + g.verdict) * 4 + (g.verdict == dmsg::ACCEPT ? g.flag : 3);
   if (g.verdict == dmsg::SILENT) { ctx.count("doc_silent"); ctx.list("doc_silent_classes", g.why); }
   else {
     if (g.lowercase_hemi && g.verdict == dmsg::ACCEPT) ctx.count("lowercase_hemisphere_assumed");
@@ -117,12 +117,11 @@ static void judge(Ctx& ctx, const std::string& s, const Rec& r) {
       if (wantA != (r.oc[C_ANGLE] == 0)) ctx.fail(key + "/angle", std::string("DecodeAngle ") + (r.oc[C_ANGLE] == 0 ? "accepted" : "rejected") + " a string that is " + (wantA ? "a legal arc angle" : "not a legal arc angle"), F(wantA ? "valid-rejected" : "invalid-accepted", C_ANGLE, g.why));
       else if (wantA && !close_value(r.v[C_ANGLE], g.value, g.mag, g.special)) ctx.fail(key + "/angle", "DecodeAngle = " + fx(r.v[C_ANGLE]), F("value", C_ANGLE));
     }
-    if (r.oc[C_AZI] < 2) {
+    if (r.oc[C_AZI] < 2 && !g.special) {                      // azimuth of nan/inf: "reduced to [-180,180]" leaves it undocumented
       if (wantZ != (r.oc[C_AZI] == 0)) ctx.fail(key + "/azi", std::string("DecodeAzimuth ") + (r.oc[C_AZI] == 0 ? "accepted" : "rejected") + " a string that is " + (wantZ ? "a legal azimuth" : "not a legal azimuth"), F(wantZ ? "valid-rejected" : "invalid-accepted", C_AZI, g.why));
       else if (wantZ) {
         double z = r.v[C_AZI];
-        if (g.special) { if (!std::isnan(z)) ctx.fail(key + "/azi", "DecodeAzimuth of a non-finite value = " + fx(z), F("value", C_AZI)); }
-        else { long double d = remainderl((long double)z - g.value, 360.0L); if (!(fabsl(d) <= 4 * (long double)EPS * std::max(g.mag, 360.0L)) || !(std::fabs(z) <= 180)) ctx.fail(key + "/azi", "DecodeAzimuth = " + fx(z) + " want " + mc::fmtl(g.value) + " reduced", F("value", C_AZI)); }
+        { long double d = remainderl((long double)z - g.value, 360.0L); if (!(fabsl(d) <= 4 * (long double)EPS * std::max(g.mag, 360.0L)) || !(std::fabs(z) <= 180)) ctx.fail(key + "/azi", "DecodeAzimuth = " + fx(z) + " want " + mc::fmtl(g.value) + " reduced", F("value", C_AZI)); }
       }
     }
     // DecodeLatLon with partner "7" (no designator)
@@ -144,6 +143,7 @@ static void judge(Ctx& ctx, const std::string& s, const Rec& r) {
   }
   // ---- Utility readers against their documented behaviour
   auto num = [&](int call, const tref::Num& t, bool bitwise) {
+    h = h * 3 + t.v;
     if (t.v == tref::SILENT) { ctx.count("doc_silent_utility"); ctx.list("doc_silent_classes", std::string(CALLNAME[call]) + ": " + t.why); return; }
     if (r.oc[call] >= 2) return;
     bool want = t.v == tref::ACCEPT;
